@@ -20,6 +20,7 @@ Fixpoint Fits (g : bool) (v : vtree) (t : ltree) {struct v} : Prop :=
   | VFrame child _ => if g then exists k ks, l_kids t = k :: ks /\ Fits g child k else Fits g child t
   | VTag _ child => exists k ks, l_kids t = k :: ks /\ Fits g child k
   | VDynamic build => exists c k ks, l_data t = DCt c /\ l_kids t = k :: ks /\ Fits g (build c) k
+  | VRef (Some v') => exists k ks, l_data t = DRef /\ l_kids t = k :: ks /\ Fits g v' k
   | _ => True
   end.
 
@@ -178,6 +179,9 @@ Section Layout.
     - (* dynamic *)
       destruct (layout vc (build c) c) as [t0| | |] eqn:El; try discriminate. cbn [bind] in E. injection E as <-.
       cbn [l_kids l_data]. eexists _, _, _. split; [reflexivity|]. split; [reflexivity|]. eapply H; eauto.
+    - (* cached view *)
+      destruct (layout vc v c) as [t0| | |] eqn:El; try discriminate. cbn [bind] in E. injection E as <-.
+      cbn [l_kids l_data]. eexists _, _. split; [reflexivity|]. split; [reflexivity|]. eapply IHv; eauto.
   Qed.
 End Layout.
 
@@ -226,22 +230,22 @@ Section Render.
                                 | Some f =>
                                     let* d' := erase (match d with
                                       | Hor => view sub (resolve (sh_height sub) Full)
-                                                 (resolve (sh_width sub) (Rng (Z.of_N (l_col k)) (Z.of_N (l_col k + l_ww k))))
-                                      | Ver => view sub (resolve (sh_height sub) (Rng (Z.of_N (l_row k)) (Z.of_N (l_row k + l_hh k))))
+                                                 (resolve (sh_width sub) (Rng (Z.of_N (l_col k)) (Z.of_N (sat_addN (l_col k) (l_ww k)))))
+                                      | Ver => view sub (resolve (sh_height sub) (Rng (Z.of_N (l_row k)) (Z.of_N (sat_addN (l_row k) (l_hh k)))))
                                                  (resolve (sh_width sub) Full)
                                       end) (r_data s) f in Ok (mkR d' (r_log s))
                                 end) = Ok s1 /\ H * W <= length (r_data s1)).
       { destruct fc as [f|]; [|eauto].
         assert (Harea : exists area warea, area = (match d with
                     | Hor => view sub (resolve (sh_height sub) Full)
-                               (resolve (sh_width sub) (Rng (Z.of_N (l_col k)) (Z.of_N (l_col k + l_ww k))))
-                    | Ver => view sub (resolve (sh_height sub) (Rng (Z.of_N (l_row k)) (Z.of_N (l_row k + l_hh k))))
+                               (resolve (sh_width sub) (Rng (Z.of_N (l_col k)) (Z.of_N (sat_addN (l_col k) (l_ww k)))))
+                    | Ver => view sub (resolve (sh_height sub) (Rng (Z.of_N (l_row k)) (Z.of_N (sat_addN (l_row k) (l_hh k)))))
                                (resolve (sh_width sub) Full)
                     end) /\ Rep H W area warea).
         { destruct d.
-          - destruct (rep_subview H W sub wsub Full (Rng (Z.of_N (l_col k)) (Z.of_N (l_col k + l_ww k))) Hmax Hsub I (usel_rng _ _))
+          - destruct (rep_subview H W sub wsub Full (Rng (Z.of_N (l_col k)) (Z.of_N (sat_addN (l_col k) (l_ww k)))) Hmax Hsub I (usel_rng _ _))
               as (w' & R & _). eauto.
-          - destruct (rep_subview H W sub wsub (Rng (Z.of_N (l_row k)) (Z.of_N (l_row k + l_hh k))) Full Hmax Hsub (usel_rng _ _) I)
+          - destruct (rep_subview H W sub wsub (Rng (Z.of_N (l_row k)) (Z.of_N (sat_addN (l_row k) (l_hh k)))) Full Hmax Hsub (usel_rng _ _) I)
               as (w' & R & _). eauto. }
         destruct Harea as (area & warea & <- & Rarea).
         destruct (erase_ok H W area warea (r_data s) f Rarea Hlen) as (d' & -> & [Le _]). cbn [bind].
@@ -303,6 +307,17 @@ Section Render.
     - destruct (fill_with_safe H W (apply_to sh t) wsub (r_data s) (fun _ _ _ => mkCell face0 (KChar (61440 + id))) Rsub Hlen)
         as (d1 & E1 & _).
       unfold fill_cells, fill. rewrite E1. cbn. eauto.
+    - match goal with |- context [Shape.view (apply_to sh t) (resolve _ (To ?a)) (resolve _ (To ?b))] =>
+        destruct (rep_subview H W (apply_to sh t) wsub (To a) (To b) Hmax Rsub ltac:(cbn; lia) ltac:(cbn; lia))
+          as (warea & Rarea & _) end.
+      match goal with |- context [fill_with ?area (r_data s) ?f] =>
+        destruct (fill_with_safe H W area warea (r_data s) f Rarea Hlen) as (d1 & -> & _) end.
+      cbn. eauto.
+    - match goal with |- context [fill_with (apply_to sh t) (r_data s) ?f] =>
+        destruct (fill_with_safe H W (apply_to sh t) wsub (r_data s) f Rsub Hlen) as (d1 & -> & _) end.
+      cbn. eauto.
+    - eauto.
+    - destruct Hfit as (k & ks & Ed & Ek & Fk). rewrite Ed, Ek. apply (IHv k (apply_to sh t) wsub s Fk Rsub Hlen).
   Qed.
 
   (* layout followed by render completes *)
